@@ -175,6 +175,20 @@ class E2(Component):
         return case
 
 
+class E1Wide(E1):
+    """Sparse but wide size sweep: all exact-boundary triples (similarity == a two-decimal
+    threshold in rational arithmetic) with up to N tokens per value."""
+    name = "E1-wide"
+    rule = "every exact-boundary (n,m,o) instance up to N tokens, common tokens rarest-last"
+
+    def bounds(self, tier):
+        return {"N": 128 if tier == "quick" else 256, "grid": 100,
+                "measures": ["JACCARD", "COSINE", "DICE"]}
+
+    def cases(self, tier):
+        return enumgen.e1_exact_cases(self.bounds(tier)["N"])
+
+
 from .c02 import Bundled, Dense, Large  # noqa: E402  (completeness is asserted by these too)
 
-COMPONENTS = [Random(), E1(), E2(), Dense(), Bundled(), Large()]
+COMPONENTS = [Random(), E1(), E1Wide(), E2(), Dense(), Bundled(), Large()]
